@@ -15,13 +15,14 @@ RULE = ("A generated program (C02 generator: forward / backward label references
         "assembling the spliced text; 1 case in 8 repeats the comparison through real assembler.py processes (--to_bin "
         "bytes, --print --symbols output). A second search includes one label-free file two or three times in a "
         "program (side by side, or once directly and once through another file). Half of the programs carry comments "
-        "holding VT, FF, FS, GS, RS, NEL, U+2028 or U+2029 (line ends to str.splitlines, not to a file read line by line). INCLUDE lines are also written in lower case and with a comment after the file name (with or without a blank before the ;). Missing files (including names that run through a regular file, name a directory or are too long for the file system) and inclusion cycles must be diagnostics. Non-trivial = a "
+        "holding VT, FF, FS, GS, RS, NEL, U+2028 or U+2029 (line ends to str.splitlines, not to a file read line by line). Half of the cut programs carry an END statement that is not the last line (END ends nothing: an included file is read to its last line, like the main file), and the repeated file may hold one. INCLUDE lines are also written in lower case and with a comment after the file name (with or without a blank before the ;). Missing files (including names that run through a regular file, name a directory or are too long for the file system) and inclusion cycles must be diagnostics. Non-trivial = a "
         "label reference crosses a file boundary; distinct by case hash.")
 ASSUMPTIONS = [
     "the spliced program is the reference: both sides run the same assembler, the relation is metamorphic",
     "INCLUDE lines carry no label (a label on an INCLUDE line has no defined meaning)",
 ]
-HEALTH = {"crossing_reference": 0.08, "nested": 0.04, "cli": 16, "repeated_include": 200, "include_with_comment": 300}
+HEALTH = {"crossing_reference": 0.08, "nested": 0.04, "cli": 16, "repeated_include": 200, "include_with_comment": 300,
+          "end_inside_include": 60}
 EXHAUSTIVE = {}
 
 _FN = ["a", "b", "cc", "defs", "zzzzzzzz", "m", "inc/sub", "inc/deep"]
@@ -33,9 +34,19 @@ _case = st.fixed_dictionaries(dict(
     prog=proggen.program, cuts=st.lists(st.integers(0, 60), min_size=4, max_size=7), nested=st.booleans(),
     names=st.permutations(_FN), cli=st.integers(0, 7), odd=st.one_of(st.just([]), _odd),
     empty_at=st.one_of(st.none(), st.none(), st.integers(0, 60)), inc_case=st.integers(0, 5),
-    inc_tail=st.integers(0, 11)))
+    inc_tail=st.integers(0, 11), mid_end=st.one_of(st.none(), st.integers(0, 60))))
 # what follows the file name on an INCLUDE line (index 0 and >= len: nothing): a comment is not part of the name
 _INC_TAILS = ["", ";note", " ;note", "\t; see b.asm", "   ", " ; INCLUDE other.asm", ";"]
+
+
+def with_mid_end(lines, at):
+    """an END statement that is not the last line (it ends nothing: the statements after it are assembled, in a main
+    file and in an included file alike)"""
+    if at is None or len(lines) < 2:
+        return list(lines)
+    first = 1 if " ORG " in lines[0] else 0
+    i = first + at % (len(lines) - first)
+    return lines[:i] + [" END\n" if at % 2 else " END \n"] + lines[i:]
 
 
 def with_odd_comments(lines, odd):
@@ -75,7 +86,7 @@ NEGATIVE = [
 # a label-free file included more than once (INCLUDE as a poor man's macro): siblings, or once directly and once
 # through another file (diamond)
 _MACRO_POOL = [" NOP \n", " LDA #1\n", " STA $0400\n", " LDA ,X+\n", " LEAX 1,X\n", " LEAY 100,Y\n", " PSHS A,B\n", " FCB 1,2,3\n",
-               " FDB $1234\n", " LDB <$10\n", " JSR $A30A\n", " RMB 2\n", " FCC /hi/\n", " LDD [$2000]\n", " CMPX #$00FF\n"]
+               " FDB $1234\n", " LDB <$10\n", " JSR $A30A\n", " RMB 2\n", " FCC /hi/\n", " LDD [$2000]\n", " CMPX #$00FF\n", " END\n"]
 _repeat = st.fixed_dictionaries(dict(
     prog=proggen.small_program, at=st.lists(st.integers(0, 40), min_size=2, max_size=3),
     macro=st.lists(st.integers(0, len(_MACRO_POOL) - 1), min_size=1, max_size=4), diamond=st.booleans(),
@@ -167,7 +178,7 @@ def render(case):
     if case.get("rep"):
         flat, files, main = build_repeat(case)
         return dict(repeated=True, files=dict((k, [l.rstrip("\n") for l in v][:15]) for k, v in files.items()))
-    lines = with_odd_comments(proggen.render(case["prog"]), case.get("odd"))
+    lines = with_mid_end(with_odd_comments(proggen.render(case["prog"]), case.get("odd")), case.get("mid_end"))
     files, main = split(lines, case["cuts"], case["nested"], case["names"])
     return dict(nested=case["nested"], files=dict((k, [l.rstrip("\n") for l in v][:15]) for k, v in files.items()))
 
@@ -218,10 +229,12 @@ def execute(case):
         labels.append("repeated_include")
         crossing = True
     else:
-        lines = with_odd_comments(proggen.render(case["prog"]), case.get("odd"))
+        lines = with_mid_end(with_odd_comments(proggen.render(case["prog"]), case.get("odd")), case.get("mid_end"))
         if case.get("odd"):
             labels.append("separator_in_comment")
         files, main = split(lines, case["cuts"], case["nested"], case["names"])
+        if any(k != main and any(l.strip() == "END" for l in v[:-1]) for k, v in files.items()):
+            labels.append("end_inside_include")
         if case.get("inc_case", 0) in (1, 2):
             # the directive spelled include / Include (mnemonics are accepted in any letter case), in every file
             word = " include " if case["inc_case"] == 1 else " Include "
